@@ -112,6 +112,9 @@ def adapter_playback(stage, prop, h, r, unlisted, outdir):
     json.dump(art, open(path, "w"), indent=1)
     if failed is None:
         return Outcome(False, path, "native playback build/run failed")
+    if "Not enough det vals found" in tail or "det vals" in tail:
+        # the playback library ran out of recorded values: the test does not carry the counterexample
+        return Outcome(False, path, "Kani printed no usable concrete values for this counterexample; native playback cannot be set up")
     if failed:
         return Outcome(True, path, "native playback of the counterexample fails on the real code (%d test(s))" % ran)
     return Outcome(False, path, "native playback passes: counterexample depends on a stub or on the memory model")
